@@ -1031,7 +1031,7 @@ func buildCase(r *rng, o *caseOpts, u *universe, tiers []*gtier, profs []*gprofi
 		ipip = !o.allowIPIP
 	}
 	adminUp := o.adminUp || o.kind == "hep"
-	ecCoq := fmt.Sprintf("(Build_ecfg TNormal %v %s %s %v %s %v)", adminUp, fs, allow, !o.disableCtInvalid, vx, ipip)
+	ecCoq := fmt.Sprintf("(Build_ecfg TNormal %v %s %s %v %s %v %v)", adminUp, fs, allow, !o.disableCtInvalid, vx, ipip, treeProfileFix)
 	var setsCoq []string
 	for id := range w.sets {
 		setsCoq = append(setsCoq, fmt.Sprintf("(%d, %s)", id, coqList(w.sets[id], member.coq)))
@@ -1081,6 +1081,11 @@ func buildCase(r *rng, o *caseOpts, u *universe, tiers []*gtier, profs []*gprofi
 				}
 			}
 		}
+	}
+	if treeProfileFix {
+		tags = append(tags, "variant:profile-pass-fixed")
+	} else {
+		tags = append(tags, "variant:profile-pass-unfixed")
 	}
 	sort.Strings(tags)
 	tags = dedup(tags)
@@ -1136,6 +1141,58 @@ func checkActionType(a generictables.Action, parsed string) error {
 	return nil
 }
 
+// treeProfileFix: does the tree under test clear the pass mark at the head of a profile chain that holds a Pass
+// rule (fixes/C09-profile-pass-mark.patch)?  Probed once from the real renderer; selects the model variant.
+var treeProfileFix bool
+
+func probeProfileVariant() (bool, error) {
+	mc := markCfgs[0]
+	cfg := rules.Config{
+		IPSetConfigV4: ipsets.NewIPVersionConfig(ipsets.IPFamilyV4, "cali", nil, nil),
+		IPSetConfigV6: ipsets.NewIPVersionConfig(ipsets.IPFamilyV6, "cali", nil, nil),
+		MarkAccept:    mc.accept, MarkPass: mc.pass, MarkDrop: mc.drop,
+		MarkScratch0: mc.s0, MarkScratch1: mc.s1, MarkEndpoint: mc.endpoint,
+	}
+	udp := &proto.Protocol{NumberOrName: &proto.Protocol_Number{Number: 17}}
+	inb, _ := rules.NewRenderer(cfg, false).ProfileToIptablesChains(&types.ProfileID{Name: "probe"},
+		&proto.Profile{InboundRules: []*proto.Rule{{Action: "pass", Protocol: udp}, {Action: "allow"}}}, 4)
+	clear := fmt.Sprintf("--jump MARK --set-mark 0/%#x", mc.pass)
+	var txt []string
+	for k := range inb.Rules {
+		txt = append(txt, iptables.NewIptablesRenderer("").RenderAppend(&inb.Rules[k], "C", "", &environment.Features{}))
+	}
+	switch {
+	case len(txt) == 3 && !strings.HasSuffix(txt[0], clear):
+		return false, nil
+	case len(txt) == 4 && strings.HasSuffix(txt[0], clear):
+		return true, nil
+	}
+	return false, fmt.Errorf("cannot tell the profile-pass variant of this tree: %q", txt)
+}
+
+// the minimal witness of the profile-pass defect: a tier that passes everything, a profile [pass udp; allow],
+// a TCP packet (allowed by the reference)
+func corpusProfilePass(r *rng, nft bool) (*line, error) {
+	o := &caseOpts{ver: 4, nft: nft, mc: markCfgs[0], kind: "wl", adminUp: true, allowVXLAN: true, allowIPIP: true, profilePass: true}
+	u := newUniverse(4)
+	w := &setWorld{sets: make([][]member, u.nsets)}
+	passAll := &grule{action: "pass", proto: -1, notProto: -1, icmpType: -1}
+	passUDP := &grule{action: "pass", proto: 17, notProto: -1, icmpType: -1}
+	allow := &grule{action: "allow", proto: -1, notProto: -1, icmpType: -1}
+	tiers := []*gtier{{name: "tier0", defaultAction: "Deny", groups: []*ggroup{{pols: []*gpolicy{{
+		id: types.PolicyID{Name: "tier0.pass-all", Kind: "GlobalNetworkPolicy"}, in: []*grule{passAll}, out: []*grule{passAll}}}}}}}
+	profs := []*gprofile{{name: "prof0", in: []*grule{passUDP, allow}, out: []*grule{passUDP, allow}}}
+	pk := packet{proto: 6, src: u.addrs[0], dst: u.addrs[1], sport: 1000, dport: 80, ct: "CtNew"}
+	pk2 := pk
+	pk2.proto = 17
+	c, err := buildCase(r, o, u, tiers, profs, w, []packet{pk, pk2})
+	if err != nil {
+		return nil, err
+	}
+	c.Tags = append(c.Tags, "corpus:profile-pass-after-tier-pass")
+	return c, nil
+}
+
 func main() {
 	n := flag.Int("n", 100, "cases")
 	seed := flag.Uint64("seed", 1, "seed")
@@ -1149,10 +1206,21 @@ func main() {
 		fmt.Fprintf(os.Stderr, "C09 driver: %v\n", err)
 		os.Exit(3)
 	}
+	var perr error
+	if treeProfileFix, perr = probeProfileVariant(); perr != nil {
+		fail(perr)
+	}
+	for _, nft := range []bool{false, true} {
+		c, err := corpusProfilePass(r, nft)
+		if err != nil {
+			fail(err)
+		}
+		_ = enc.Encode(c)
+	}
 	for i := 0; i < *n; i++ {
 		o := &caseOpts{ver: 4, nft: i%2 == 1, mc: markCfgs[r.intn(len(markCfgs))], flow: r.chance(50), reject: r.chance(25),
 			kind: "wl", egress: r.chance(50), adminUp: !r.chance(4), allowVXLAN: r.chance(40), allowIPIP: r.chance(40),
-			filterAllowReturn: r.chance(25), disableCtInvalid: r.chance(20)}
+			filterAllowReturn: r.chance(25), disableCtInvalid: r.chance(20), profilePass: r.chance(30)}
 		if r.chance(35) {
 			o.ver = 6
 		}
